@@ -36,10 +36,19 @@
 (* classes boundary, boundary+1 byte (inside/after the length prefix),      *)
 (* mid-record, next boundary-1 byte.                                        *)
 (*                                                                         *)
-(* Not modelled: failing system calls.  (When Snapshot's write fails, e.g.  *)
-(* disk full, doMaintenance still calls replaceFile.Close, which renames    *)
-(* the incomplete temporary file over the good snapshot; that is a write    *)
-(* error, not a crash, and outside the statement of C11.)                    *)
+(* Fault WriteFail.  A write may store only a prefix of what it was given    *)
+(* and return an error (disk full, EFBIG, I/O error): call "writefail a n"   *)
+(* appends n units and marks the generation as failed - it captures no       *)
+(* state, so it is not among the snapshots the next start may load.  What    *)
+(* the writer does next is the action ErrorPath, selected by OnWriteError:   *)
+(*   "rename"     what doMaintenance does (silence/silence.go, nflog/nflog.go *)
+(*                Maintenance: `if size, err = s.Snapshot(f); err != nil {    *)
+(*                f.Close(); return }` and replaceFile.Close = Sync, Close,   *)
+(*                Rename(tmp -> final)): the PARTIAL temporary file is        *)
+(*                renamed over the good snapshot;                             *)
+(*   "remove"     the repaired reaction: close the file, remove it;           *)
+(*   "asrecorded" the reaction is part of Ops (sequence recorded by strace).  *)
+(* Other failing system calls are not modelled.                               *)
 (*                                                                         *)
 (* Loader (decodeState): a sequence of length-delimited records; a missing  *)
 (* file and an empty file are the empty state; a truncated record, a record *)
@@ -50,6 +59,7 @@ EXTENDS Integers, FiniteSets, Sequences, TLC
 CONSTANTS Ops,       \* <<[op, a, b, n, g], ...>>: the writer's file-system calls (from strace)
                      \*   create a    : open(a, O_CREAT|O_TRUNC); handle a; belongs to generation g
                      \*   write  a n  : append n units of generation g through handle a
+                     \*   writefail a n : a write that stores only n units and returns an error
                      \*   fsync  a    : fsync/fdatasync of handle a
                      \*   close  a    : close of handle a
                      \*   rename a b  : rename(a, b)
@@ -58,7 +68,8 @@ CONSTANTS Ops,       \* <<[op, a, b, n, g], ...>>: the writer's file-system call
           Recs,      \* Recs[g+1] = number of records of generation g
           U,         \* units per record
           Final,     \* the name the loader opens
-          ZeroFill   \* BOOLEAN: crash may expose zeros for unsynced data
+          ZeroFill,  \* BOOLEAN: crash may expose zeros for unsynced data
+          OnWriteError \* "rename" | "remove" | "asrecorded": the writer's reaction to a failed write
 
 VARIABLES pc,        \* number of calls of Ops executed
           ino,       \* sequence of inodes: [cached, synced]
@@ -67,13 +78,16 @@ VARIABLES pc,        \* number of calls of Ops executed
           dlog,      \* directory operations issued since then, in order
           hnd,       \* open handles: name at creation -> inode number, 0 = closed
           begun,     \* highest generation an executed call belongs to
-          done,      \* generation of the last snapshot whose calls have all returned
+          done,      \* generation of the last snapshot whose calls have all returned (without error)
+          failed,    \* generations whose write failed: they capture no state
+          errh,      \* handle of the snapshot whose write just failed ("" = none): ErrorPath runs
+          epc,       \* number of calls of the reaction executed
           hasPrev,   \* a snapshot (generation 0) was on disk at the start
           phase,     \* "run" | "crashed"
           post,      \* after the crash: name -> [present, c]
           kd         \* after the crash: number of pending directory operations that survived
 
-vars == <<pc, ino, dir, ddir, dlog, hnd, begun, done, hasPrev, phase, post, kd>>
+vars == <<pc, ino, dir, ddir, dlog, hnd, begun, done, failed, errh, epc, hasPrev, phase, post, kd>>
 
 NRec(g)  == Recs[g + 1]
 Gens     == 0 .. Len(Recs) - 1
@@ -157,6 +171,7 @@ Init == /\ pc = 0
         /\ dlog = << >>
         /\ hnd = [n \in Names |-> 0]
         /\ begun = 0 /\ done = 0
+        /\ failed = {} /\ errh = "" /\ epc = 0
         /\ phase = "run"
         /\ post = [n \in Names |-> Absent]
         /\ kd = 0
@@ -203,20 +218,44 @@ DirSync ==
   /\ ddir' = dir /\ dlog' = << >>
   /\ UNCHANGED <<ino, dir, hnd>>
 
+Exec(o) == CASE o.op = "create"    -> Create(o)
+             [] o.op = "write"     -> Write(o)
+             [] o.op = "writefail" -> Write(o)      \* the prefix that was stored
+             [] o.op = "fsync"     -> Fsync(o)
+             [] o.op = "close"     -> Close(o)
+             [] o.op = "rename"    -> Rename(o)
+             [] o.op = "unlink"    -> Unlink(o)
+             [] o.op = "dirsync"   -> DirSync
+
 Step ==
-  /\ phase = "run" /\ pc < Len(Ops)
+  /\ phase = "run" /\ pc < Len(Ops) /\ errh = ""
   /\ LET o == Ops[pc + 1] IN
-     /\ CASE o.op = "create"  -> Create(o)
-          [] o.op = "write"   -> Write(o)
-          [] o.op = "fsync"   -> Fsync(o)
-          [] o.op = "close"   -> Close(o)
-          [] o.op = "rename"  -> Rename(o)
-          [] o.op = "unlink"  -> Unlink(o)
-          [] o.op = "dirsync" -> DirSync
+     /\ Exec(o)
      /\ begun' = Max(begun, o.g)
-     /\ done' = IF pc + 1 = LastCall(o.g) THEN o.g ELSE done
+     /\ IF o.op = "writefail"
+        THEN /\ failed' = failed \cup {o.g}
+             /\ errh' = IF OnWriteError = "asrecorded" THEN "" ELSE o.a
+             /\ epc' = 0
+        ELSE UNCHANGED <<failed, errh, epc>>
+     /\ done' = IF pc + 1 = LastCall(o.g) /\ o.g \notin failed' THEN o.g ELSE done
   /\ pc' = pc + 1
   /\ UNCHANGED <<hasPrev, phase, post, kd>>
+
+\* the writer's reaction to the failed write of handle t (generation g), call by call, so
+\* that a crash may fall between any two of them
+RCall(op, a, b, g) == [op |-> op, a |-> a, b |-> b, n |-> 0, g |-> g]
+Reaction(t, g) ==
+  IF OnWriteError = "rename"
+  THEN << RCall("fsync", t, "", g), RCall("close", t, "", g), RCall("rename", t, Final, g) >>   \* replaceFile.Close
+  ELSE << RCall("close", t, "", g), RCall("unlink", t, "", g) >>                                \* repaired
+
+ErrorPath ==
+  /\ phase = "run" /\ errh # ""
+  /\ LET r == Reaction(errh, begun) IN
+     /\ Exec(r[epc + 1])
+     /\ epc' = epc + 1
+     /\ errh' = IF epc + 1 = Len(r) THEN "" ELSE errh
+  /\ UNCHANGED <<pc, begun, done, failed, hasPrev, phase, post, kd>>
 
 Crash ==
   /\ phase = "run"
@@ -224,9 +263,9 @@ Crash ==
        /\ kd' = k
        /\ post' \in Prod(Names, ApplyN(ddir, dlog, k))
   /\ phase' = "crashed"
-  /\ UNCHANGED <<pc, ino, dir, ddir, dlog, hnd, begun, done, hasPrev>>
+  /\ UNCHANGED <<pc, ino, dir, ddir, dlog, hnd, begun, done, failed, errh, epc, hasPrev>>
 
-Next == Step \/ Crash
+Next == Step \/ ErrorPath \/ Crash
 Spec == Init /\ [][Next]_vars
 
 ----------------------------------------------------------------------------
@@ -236,12 +275,14 @@ Spec == Init /\ [][Next]_vars
 NoStartupError == phase = "crashed" => ~Recover.err
 
 \* ... and loads exactly the state captured by one snapshot, never a torn, partial or
-\* mixed one: for one snapshot {S_prev, S_new}
-AtomicRecover == phase = "crashed" => \E g \in 0 .. begun : Recover = Ok(Snap(g))
+\* mixed one: for one snapshot {S_prev, S_new}.  A snapshot whose write failed captured
+\* nothing: what it left behind is not a state the next start may load.
+Admissible == (0 .. begun) \ failed
+AtomicRecover == phase = "crashed" => \E g \in Admissible : Recover = Ok(Snap(g))
 
 \* the stronger reading "the last completed snapshot or the one in progress"; needs the
 \* rename to be durable when the writer returns (an fsync of the directory)
-DurableRecover == phase = "crashed" => (Recover = Ok(Snap(done)) \/ Recover = Ok(Snap(begun)))
+DurableRecover == phase = "crashed" => (Recover = Ok(Snap(done)) \/ (begun \notin failed /\ Recover = Ok(Snap(begun))))
 
 \* the abstract reason: whatever is, or after a crash may become, visible under the final
 \* name is the complete content of one generation and was fsynced before it got that name
@@ -253,9 +294,12 @@ SyncedBeforeRename ==
 
 \* the writer never touches the final name except by rename
 FinalOnlyByRename == pc >= 0 => \A j \in 1 .. Len(Ops) :
-                       Ops[j].op \in {"create", "write", "unlink"} => Ops[j].a # Final
+                       Ops[j].op \in {"create", "write", "writefail", "unlink"} => Ops[j].a # Final
 
 \* vacuity probes (must be violated): a crash is reached with each outcome
 ProbeNew  == ~(phase = "crashed" /\ begun > 0 /\ Recover = Ok(Snap(begun)) /\ Snap(begun) # Snap(0))
 ProbePrev == ~(phase = "crashed" /\ begun > 0 /\ pc = Len(Ops) /\ Recover = Ok(Snap(0)))
+\* after a failed write and the whole reaction, the last completed snapshot is what is loaded
+ProbeFailKeepsPrev == ~(phase = "crashed" /\ failed # {} /\ pc = Len(Ops) /\ errh = "" /\ done > 0
+                        /\ Recover = Ok(Snap(done)))
 =============================================================================
